@@ -1374,8 +1374,12 @@ impl MutableRepo {
                         dependents.push(parent);
                         continue;
                     };
-                    if let Some(rewrite) = self.parent_mapping.get(parent.id()) {
-                        for target in rewrite.new_parent_ids() {
+                    if self.parent_mapping.contains_key(parent.id()) {
+                        // Follow chains of rewrites (A -> B -> C) to the commits
+                        // that will actually become the new parents.
+                        let targets =
+                            self.rewritten_ids_with(slice::from_ref(parent.id()), |_| true);
+                        for target in &targets {
                             if to_visit_set.contains(target) && !visited.contains(target) {
                                 dependents.push(store.get_commit_async(target).await);
                             }
